@@ -101,7 +101,9 @@ def _nudge(rng, call):
     c = [list(a) if isinstance(a, list) else a for a in call]
     spots = []
     for i, a in enumerate(c[1:], 1):
-        if isinstance(a, int) and not isinstance(a, bool):
+        if isinstance(a, float):
+            spots.append((i, 'f'))
+        elif isinstance(a, int) and not isinstance(a, bool):
             spots.append((i, None))
         elif isinstance(a, list):
             spots += [(i, j) for j, v in enumerate(a[:2]) if isinstance(v, int) and not isinstance(v, bool)]
@@ -109,7 +111,9 @@ def _nudge(rng, call):
         return call
     i, j = spots[rng.randrange(len(spots))]
     d = rng.choice([-1, 1, -1, 1, -4, 4])
-    if j is None:
+    if j == 'f':
+        c[i] += float(rng.choice([-4, 4, -2, 2, 1]))        # a neighbouring (or non-existent) sample coordinate
+    elif j is None:
         c[i] += d
     else:
         c[i][j] += d
